@@ -51,11 +51,6 @@ theorem ite_without_else (q : Q) (env : Env) (d : Nat) (c t : Body) :
     solve q env d (.ite c t) = solve q env d (.disj (.ite c t) .fail) := by
   funext k w
   simp only [solve]
-  generalize solve q env (d + 1) c _ w = r
-  obtain ⟨w', s⟩ := r
-  cases s with
-  | none => rfl
-  | some s => cases s <;> rfl
 
 /-- `\+ A ⇒ (A -> fail ; true)`. -/
 theorem neg_as_ite (q : Q) (env : Env) (d : Nat) (a : Body) :
